@@ -56,6 +56,9 @@ RECURSIVE PairRow(_, _), PairRows(_, _)
 PairRow(x, ys) == IF ys = <<>> THEN <<>> ELSE (IF x > Head(ys) THEN <<x * Head(ys)>> ELSE <<>>) \o PairRow(x, Tail(ys))
 PairRows(rest, all) == IF rest = <<>> THEN <<>> ELSE PairRow(Head(rest), all) \o PairRows(Tail(rest), all)
 PairProducts(xs) == PairRows(xs, xs)
+Occ2(cs, c1, c2) == {i \in 1..(Len(cs) - 1) : cs[i] = c1 /\ cs[i + 1] = c2}
+Find2(cs, c1, c2) == IF Occ2(cs, c1, c2) = {} THEN -1 ELSE (CHOOSE i \in Occ2(cs, c1, c2) : \A j \in Occ2(cs, c1, c2) : i <= j) - 1
+RFind2(cs, c1, c2) == IF Occ2(cs, c1, c2) = {} THEN -1 ELSE (CHOOSE i \in Occ2(cs, c1, c2) : \A j \in Occ2(cs, c1, c2) : i >= j) - 1
 \* sum of (index * 10 + element) over the elements other than a, the index counting every element
 RECURSIVE WSumSkip(_, _, _)
 WSumSkip(xs, i, a) == IF xs = <<>> THEN 0 ELSE (IF Head(xs) = a THEN 0 ELSE i * 10 + Head(xs)) + WSumSkip(Tail(xs), i + 1, a)
@@ -92,7 +95,7 @@ Ops ==
   \cup {[k |-> "sslice", lo |-> r[1], hi |-> r[2]] : r \in {<<1, -1>>, <<0, 2>>, <<1, 3>>}}
   \* tuples, scalars, calls
   \cup {[k |-> "tuple"], [k |-> "tupleidx"], [k |-> "untuple"], [k |-> "ternary"], [k |-> "max"], [k |-> "min"], [k |-> "abs"], [k |-> "addn"], [k |-> "closure"], [k |-> "defarg"],
-        [k |-> "castint"], [k |-> "caststr"], [k |-> "tryraise"], [k |-> "breakcont"], [k |-> "range3"], [k |-> "dgetplus"], [k |-> "dgetneg"], [k |-> "dpopdefault"], [k |-> "enumcontinue"], [k |-> "kwreorder"], [k |-> "kwskip"], [k |-> "swap"], [k |-> "dblcomp"], [k |-> "dblcompcond"], [k |-> "closureloop"], [k |-> "chaincmp"], [k |-> "andor"], [k |-> "range1"], [k |-> "range2"], [k |-> "range2len"], [k |-> "range3ab"], [k |-> "rangecomp1"], [k |-> "rangecomp2"]}
+        [k |-> "castint"], [k |-> "caststr"], [k |-> "tryraise"], [k |-> "breakcont"], [k |-> "range3"], [k |-> "srfind2"], [k |-> "sfind2"], [k |-> "dgetplus"], [k |-> "dgetneg"], [k |-> "dpopdefault"], [k |-> "enumcontinue"], [k |-> "kwreorder"], [k |-> "kwskip"], [k |-> "swap"], [k |-> "dblcomp"], [k |-> "dblcompcond"], [k |-> "closureloop"], [k |-> "chaincmp"], [k |-> "andor"], [k |-> "range1"], [k |-> "range2"], [k |-> "range2len"], [k |-> "range3ab"], [k |-> "rangecomp1"], [k |-> "rangecomp2"]}
 
 Undef == [undef |-> TRUE]
 IsUndef(st) == "undef" \in DOMAIN st
@@ -175,6 +178,8 @@ Apply(op, st) ==
     [] k = "tryraise" -> [st EXCEPT !.n = IF st.a > 0 THEN 5 ELSE st.n]                       \* try: if a > 0: raise ... except: n = 5
     [] k = "breakcont" -> [st EXCEPT !.n = st.n + Sum(SelectSeq(SubSeq(xs, 1, IF Contains(xs, 7) THEN (CHOOSE i \in DOMAIN xs : xs[i] = 7 /\ \A j \in 1..(i - 1) : xs[j] # 7) - 1 ELSE Len(xs)), LAMBDA x : x # st.a))]
     [] k = "range3" -> [st EXCEPT !.n = st.n + 6]                                             \* for i in range(0, 6, 2): n += i
+    [] k = "srfind2" -> [st EXCEPT !.n = RFind2(s, "b", ",")]                                   \* s.rfind('b,'): last position where the two characters occur TOGETHER
+    [] k = "sfind2" -> [st EXCEPT !.n = Find2(s, "b", ",")]
     [] k = "dgetplus" -> [st EXCEPT !.n = (IF "k" \in DOMAIN d THEN d["k"] ELSE st.b) + 1]
     [] k = "dgetneg" -> [st EXCEPT !.n = 0 - (IF "jj" \in DOMAIN d THEN d["jj"] ELSE 9) * 2]
     [] k = "dpopdefault" -> [st EXCEPT !.n = IF "zzz" \in DOMAIN d THEN d["zzz"] ELSE st.b, !.d = DDel(d, "zzz")]
@@ -273,6 +278,8 @@ Text(op) ==
     [] k = "tryraise" -> Line("try:") \o Line("\tif a > 0:") \o Line("\t\traise RuntimeError('m')") \o Line("except RuntimeError as ex:") \o Line("\tn = 5")
     [] k = "breakcont" -> Line("for bx in xs:") \o Line("\tif bx == a:") \o Line("\t\tcontinue") \o Line("\tif bx == 7:") \o Line("\t\tbreak") \o Line("\tn += bx")
     [] k = "range3" -> Line("for ri in range(0, 6, 2):") \o Line("\tn += ri")
+    [] k = "srfind2" -> Line("n = s.rfind('b,')")
+    [] k = "sfind2" -> Line("n = s.find('b,')")
     [] k = "dgetplus" -> Line("n = d.get('k', b) + 1")
     [] k = "dgetneg" -> Line("n = -d.get('jj', 9) * 2")
     [] k = "dpopdefault" -> Line("n = d.pop('zzz', b)")
